@@ -115,6 +115,23 @@ def _simp(e):
     return z3.simplify(e)
 
 
+# ---- optional floating-point error model (used by the C04 'rounding' jobs only): every float result of an array
+# arithmetic operation is the exact real value plus an unconstrained error of at most ROUNDING['delta'].  This
+# OVER-approximates IEEE rounding for values of moderate size, so a proof under it also covers the doubles; a
+# counterexample under it is only a candidate and is reported only if it reproduces on the real code with real doubles.
+ROUNDING = {'on': False, 'delta': z3.RealVal(1) / z3.RealVal(2 ** 40), 'n': 0}
+
+
+def _rounded(v):
+    v = _simp(v)
+    if z3.is_rational_value(v):
+        return v
+    e = symx.CTX.fresh('rnd', 'real')
+    ROUNDING['n'] += 1
+    symx.CTX.assume(z3.And(e >= -ROUNDING['delta'], e <= ROUNDING['delta']))
+    return v + e
+
+
 class ndarray(object):
     __array_priority__ = 0.0
     __hash__ = None
@@ -216,6 +233,8 @@ class ndarray(object):
             kb = 'i'
         kind = force or ('f' if 'f' in (ka, kb) else 'i')
         vals = [fn(y, x) for x, y in zip(a, b)] if reverse else [fn(x, y) for x, y in zip(a, b)]
+        if ROUNDING['on'] and kind == 'f':
+            vals = [_rounded(v) for v in vals]
         return ndarray._new(vals, shape, kind)
 
     def _compare(self, other, fn):
@@ -648,6 +667,8 @@ class MaskedArray(ndarray):
         ak = num.kind if isinstance(num, ndarray) else symx.kind_of(num)
         # numpy: result 0 where masked, then += masked_da if it can be cast safely
         vals = [z3.If(m, (x if ak == 'f' else z3.RealVal(0)), x / z3.If(m, z3.RealVal(1), d)) for m, x, d in zip(ms, a, b)]
+        if ROUNDING['on']:
+            vals = [_rounded(v) for v in vals]
         fv = base._fill if isinstance(base, MaskedArray) else None
         return MaskedArray(ndarray._new(vals, shape, 'f'), ndarray._new(ms, shape, 'b'), fv)
 
